@@ -111,6 +111,31 @@ def split_unknown(cls, bs):
     return bytes(known), bytes(unk), recs
 
 
+def field_for(cls, num, wt):
+    f = None
+    for g in cls.fields:
+        if g.number == num:
+            f = g
+    return f if f is not None and fits(f, wt) else None
+
+
+def split_free(ncls, ocls, bs):
+    """the decidable side condition of C08_evolution_bytes (Model/C08Step.v split_free), computed independently:
+    no oneof group of the newer class has a member deleted in the older class and a member kept both present"""
+    spans = record_spans(bs)
+    for nu, wu, _, _ in spans:
+        fu = field_for(ncls, nu, wu)
+        if fu is None or not is_unknown(ocls, nu, wu):
+            continue
+        for nk, wk, _, _ in spans:
+            fk = field_for(ncls, nk, wk)
+            if fk is None or is_unknown(ocls, nk, wk):
+                continue
+            if fk.group is not None and fk.group == fu.group:
+                return False
+    return True
+
+
 def make_older(newer, rng, p_del):
     """older schema: per class, a random subset of fields deleted; returns (Schema, masks)"""
     classes, masks = [], []
@@ -483,12 +508,23 @@ def one_case(ctx, case, newer, older, pairs, meta):
             exp.append(ce("EOther"))
     else:
         exp.append("CN")
+    # the definitions the theorems are stated with (records via frames, is_unknown, unknown_raw, known_raw, split_free),
+    # evaluated in Coq, against the independent record reader of this file
+    sf = None
+    if framed:
+        sf = split_free(ncls, ocls, bs)
+        exp.append(cl([cb(unk_b), cb(known_b), lib.cbool(sf), lib.cz(len(record_spans(bs)))]))
+    else:
+        exp.append("CN")
     lit = lib.coq_bytes(bs)
     model = ("(let bs := " + lit + " in CL [cv_obj_res (parse scO%d %d%%nat bs); "
              "cv_bytes_res (do mo <- parse scO%d %d%%nat bs; enc_obj scO%d mo); "
              "cv_obj_res (do mo <- parse scO%d %d%%nat bs; do b2 <- enc_obj scO%d mo; parse scN%d %d%%nat b2); "
              % (pi, c, pi, c, pi, pi, c, pi, pi, c))
-    model += (f"cv_obj_res (parse scO{pi} {c}%nat {lib.coq_bytes(known_b)})])" if framed else "CN])")
+    model += (f"cv_obj_res (parse scO{pi} {c}%nat {lib.coq_bytes(known_b)}); " if framed else "CN; ")
+    model += (f"match frames (S (length bs)) bs with Some ps => CL [CB (unknown_raw (get_class scO{pi} {c}%nat) ps); "
+              f"CB (known_raw (get_class scO{pi} {c}%nat) ps); cbool (split_free (get_class scN{pi} {c}%nat) (get_class scO{pi} {c}%nat) ps); "
+              f"CZ (Zlength ps)] | None => CN end])")
     pairs.append((model, cl(exp)))
     meta.append(case)
 
@@ -564,7 +600,28 @@ def one_case(ctx, case, newer, older, pairs, meta):
     except Exception:
         fail("Newer().parse(bs) raises although the bytes passed through the older reader/writer parse")
         return
+    if sf is False:
+        # outside the theorem's side condition (two members of one oneof present, one deleted one kept): the older writer moves the
+        # deleted member behind the kept one, exactly as the reference implementation does; C08_split_oneof_refuted is the model's witness
+        ctx.count("split_oneof_inputs(evolution clause not required)")
+        return
     ctx.count("evolution_checked")
+    # how often the premises of C08_evolution_partial / C08_evolution_bytes hold on generated data
+    if ms is not None:
+        try:
+            k2 = bytes(ms)
+            ctx.count("premise_C01_old(k2 == known records):" + ("holds" if k2 == known_b else "fails"))
+            try:
+                v1, v2 = N().parse(k2), N().parse(known_b)
+                same_view = msggen.obj_literal(newer, v1) == msggen.obj_literal(newer, v2)
+            except msggen.Unmodellable:
+                same_view = None
+            except Exception:
+                same_view = False
+            if same_view is not None:
+                ctx.count("premise_view(newer sees k2 as the known records):" + ("holds" if same_view else "fails"))
+        except Exception:
+            ctx.count("premise_C01_old:older_encode_error")
     nan = has_nan(direct)
     if nan:
         ctx.count("nan_messages(compared by bytes)")
